@@ -65,6 +65,12 @@ def classes():
                     self.busy = False
                     self.stream.append(("ARMED", where, cmd, "slept"))
                     return
+                if cmd[0] == "stop_start":
+                    o1 = issue_raw(self, ("stop",))
+                    o2 = issue_raw(self, ("start",))
+                    self.arm_out = (o1, o2)
+                    self.stream.append(("ARMED", where, cmd, self.arm_out))
+                    return
                 self.arm_out = issue_raw(self, cmd)
                 self.stream.append(("ARMED", where, cmd, self.arm_out))
 
